@@ -724,6 +724,44 @@ func (c *Ctx) checkGroupOrder() {
 				c.violated("C02.group-order", mcons, mfn.Pos(), "some shard groups are locked on the spot (through "+immediate+") while others are collected and locked afterwards: the acquisition order is no longer (shard index, list position) but depends on which keys of the list share a shard, so two callers with consistently ordered lists can take two keys in opposite orders and deadlock", "")
 			}
 		}
+		// every registered entry is locked: entries gathered with the builtin copy into a fixed-size buffer are cut
+		// off silently when there are more of them than slots, unless the path bounds the key list by that size
+		if m == "Locks" || m == "RLocks" {
+			for _, t := range ts {
+				for i, e := range t.Events {
+					if e.Kind != EvCall || e.Val == nil || e.Val.Name != "builtin:copy" || len(e.Args) != 2 || !ok {
+						continue
+					}
+					dst := e.Args[0].root()
+					if dst == nil || dst.Kind != KAlloc || dst.Typ == nil {
+						continue
+					}
+					pt, isP := dst.Typ.Underlying().(*types.Pointer)
+					if !isP {
+						continue
+					}
+					arr, isA := pt.Elem().Underlying().(*types.Array)
+					if !isA {
+						continue
+					}
+					if _, isEntry := arr.Elem().(*types.Pointer); !isEntry {
+						continue
+					}
+					lenKeys := "len(" + t.Params[1].Key() + ")"
+					bounded := hasFact(t.factsBefore(i), func(f Fact) bool {
+						if f.X.Key() != lenKeys {
+							return false
+						}
+						v, isC := f.Y.intConst()
+						return isC && ((f.Op == token.LEQ && v <= arr.Len()) || (f.Op == token.LSS && v <= arr.Len()+1))
+					})
+					if !bounded {
+						ok = false
+						c.violated("C02.group-order", mcons, e.Pos, fmt.Sprintf("the registered entries are gathered with copy into a buffer of %d slots without the key list being bounded by that size on this path: copy truncates silently, the keys beyond it are registered but never locked (and a later unlock of the list hits an unlocked mutex)", arr.Len()), c.witness(t, i)...)
+					}
+				}
+			}
+		}
 		if !usedSorted || !routed {
 			c.violated("C02.group-order", mcons, mfn.Pos(), "the multi-key operation does not go through the sorted shard groups", "")
 		} else if ok {
